@@ -181,6 +181,40 @@ def err_ctx(ctx: Ctx) -> RuleResult:
     return r
 
 
+def _lazy_dispatches(ctx: Ctx, m) -> list:
+    """Async dispatches that only create a task around a coroutine: nothing reaches the pool before the scheduler suspends."""
+    return [info for info in m.dispatch.values() if info["kind"] == "async" and info.get("wrapped")
+            and info.get("callee") in ctx.P.funcs and ctx.P.funcs[info["callee"]].is_async]
+
+
+def sch_eager(ctx: Ctx) -> RuleResult:
+    """A dispatched async-thread node reaches the pool at dispatch time, not at the scheduler's next suspension."""
+    from .sch import model
+
+    r = RuleResult("SCH-EAGER")
+    m = model(ctx)
+    n_async = [info for info in m.dispatch.values() if info["kind"] == "async"]
+    if not n_async:
+        raise Undecided("no async dispatch found")
+    lazy = _lazy_dispatches(ctx, m)
+    blocking = False
+    for p in m.paths():
+        if not p.feasible:
+            continue
+        for e in p.events:
+            if (e.kind == "DISPATCH" and e.data["kind"] == "inline") or (e.kind == "WAIT" and not e.data["needs_await"]):
+                blocking = True
+    bad = bool(lazy) and blocking
+    r.ob(not bad, {"async dispatches": len(n_async), "only create a task around a coroutine": len(lazy),
+                   "the scheduler can block the loop before it suspends (inline node / blocking wait)": blocking})
+    if bad:
+        r.violate("scheduler: an async-thread node reaches the pool only at the scheduler's next suspension", m.fn.loc(lazy[0]["stmt"]),
+                  "a task around a coroutine starts when the scheduler coroutine next yields; a main-thread node (or a blocking wait) "
+                  "dispatched right after it runs first: the two never overlap although a worker is free, and a ready node of higher "
+                  "priority starts after a lower one", norm_src(lazy[0]["stmt"]))
+    return r
+
+
 def err_failstop(ctx: Ctx) -> RuleResult:
     """Tasks created for async-thread nodes start lazily (at the next await): when the scheduler observes a failure before yielding,
     it must cancel them on its way out, otherwise a node starts after the call has raised."""
@@ -188,7 +222,7 @@ def err_failstop(ctx: Ctx) -> RuleResult:
 
     r = RuleResult("ERR-FAILSTOP")
     m = model(ctx)
-    lazy = [info for info in m.dispatch.values() if info["kind"] == "async" and info.get("wrapped")]
+    lazy = _lazy_dispatches(ctx, m)
     if not lazy:
         r.ob(True, {"lazily started tasks": 0})
         return r
@@ -222,4 +256,4 @@ def err_failstop(ctx: Ctx) -> RuleResult:
     return r
 
 
-RULES = {"ERR-WRAP": err_wrap, "ERR-CHECK": err_check, "ERR-NOSWALLOW": err_noswallow, "ERR-CTX": err_ctx, "ERR-FAILSTOP": err_failstop}
+RULES = {"ERR-WRAP": err_wrap, "ERR-CHECK": err_check, "ERR-NOSWALLOW": err_noswallow, "ERR-CTX": err_ctx, "ERR-FAILSTOP": err_failstop, "SCH-EAGER": sch_eager}
